@@ -32,6 +32,22 @@
 (* kept/stamp) and a real AccessLogHook with SetSampleRate writing JSON    *)
 (* lines to a buffer (keys hkept/hstamp = line written / sample_rate in    *)
 (* the written line).                                                      *)
+(*                                                                         *)
+(* HISTORY.  keep is a function of (key, status, rate) and of nothing      *)
+(* else: the code holds no per-key or per-call memory (the only mutable    *)
+(* field is the fallback counter).  A sampler that remembers anything      *)
+(* about earlier records (a memo of the last decision, a cache, a "this    *)
+(* stream failed" mark) differs only in ORDERED histories, which a state   *)
+(* made of (rate, fate, outcomes) cannot tell apart: an error record is a  *)
+(* self-loop there.  The variable recent holds the last Window records in  *)
+(* order; it changes no decision of the model, but it is part of the VIEW, *)
+(* so the generated behaviours contain, for every reachable (fate map,     *)
+(* outcomes) and every ordered Window-tuple of preceding records (same id  *)
+(* repeated, other ids interleaved, errors before / between / after),      *)
+(* every next record.  Window = 0 gives the history-blind graph.           *)
+(* The fate of an id is bound by the driver on a VIRGIN sampler (never on  *)
+(* the instance under test), so the instance under test sees exactly the   *)
+(* records of the behaviour, in order, and nothing else.                   *)
 (***************************************************************************)
 EXTENDS Naturals, Sequences, FiniteSets, TLC, VerifEmit
 
@@ -40,6 +56,7 @@ CONSTANTS
     BadRates,    \* e.g. {"-0.1", "1.1", "100", "NaN"}: rates it must reject
     Sids,        \* abstract stream ids, e.g. {"s1", "s2"}
     Rids,        \* abstract request ids, e.g. {"r1", "r2"}
+    Window,      \* how many preceding records (in order) the state distinguishes
     Mode,        \* "mc" | "edges" | "tree"
     Depth
 
@@ -51,9 +68,11 @@ VARIABLES
     fate,        \* [Keys -> {"unset", "keep", "drop"}]: h(key) <= threshold ?
     outcomes,    \* [Keys -> SUBSET BOOLEAN]: keep decisions OBSERVED so far for the
                  \* non-error records whose sampling key is k (ghost, for the property)
+    recent,      \* the last Window records <<sid, rid, status>>, oldest first (ghost:
+                 \* the code keeps no such memory; see HISTORY above)
     hist
 
-vars == <<rate, fate, outcomes, hist>>
+vars == <<rate, fate, outcomes, recent, hist>>
 
 \* a record, as far as the sampler reads it
 Records == [sid : Sids \cup {None}, rid : Rids \cup {None}, status : {"ok", "error"}]
@@ -76,27 +95,33 @@ Record(step) ==
 
 Budget == (Mode = "tree") => Len(hist) < Depth
 
+\* the record joins the ordered window of preceding records
+Push(rec) ==
+    recent' = IF Window = 0 THEN <<>>
+              ELSE LET s == Append(recent, <<rec.sid, rec.rid, rec.status>>)
+                   IN  IF Len(s) > Window THEN Tail(s) ELSE s
+
 Args(rec, f) == [sid |-> rec.sid, rid |-> rec.rid, status |-> rec.status,
                  key |-> KeyOf(rec), fate |-> f]
 
 \* newAccessLogSampler: NaN / out of range
 Configure_Rejected(r) ==
     /\ Budget /\ rate = "unset" /\ r \in BadRates
-    /\ UNCHANGED <<rate, fate, outcomes>>
+    /\ UNCHANGED <<rate, fate, outcomes, recent>>
     /\ Record([a |-> "Configure", args |-> [rate |-> r],
                exp |-> [accepted |-> FALSE, haccepted |-> FALSE]])
 
 Configure_OK(r) ==
     /\ Budget /\ rate = "unset" /\ r \in GoodRates
     /\ rate' = r
-    /\ UNCHANGED <<fate, outcomes>>
+    /\ UNCHANGED <<fate, outcomes, recent>>
     /\ Record([a |-> "Configure", args |-> [rate |-> r],
                exp |-> [accepted |-> TRUE, haccepted |-> TRUE]])
 
 \* keep: `if s.rate >= 1.0 { return true }`
 Keep_RateOne(rec) ==
     /\ Budget /\ rate = "1"
-    /\ UNCHANGED <<rate, fate, outcomes>>
+    /\ UNCHANGED <<rate, fate, outcomes>> /\ Push(rec)
     /\ Record([a |-> "Keep", args |-> Args(rec, "none"),
                exp |-> [kept |-> TRUE, stamp_x |-> "absent",
                         hkept |-> TRUE, hstamp_x |-> "absent"]])
@@ -104,7 +129,7 @@ Keep_RateOne(rec) ==
 \* keep: `if record["status"] == "error" { return true }` -- before the hash
 Keep_Error(rec) ==
     /\ Budget /\ rate \notin {"unset", "1"} /\ rec.status = "error"
-    /\ UNCHANGED <<rate, fate, outcomes>>
+    /\ UNCHANGED <<rate, fate, outcomes>> /\ Push(rec)
     /\ Record([a |-> "Keep", args |-> Args(rec, "none"),
                exp |-> [kept |-> TRUE, stamp_x |-> "absent",
                         hkept |-> TRUE, hstamp_x |-> "absent"]])
@@ -126,7 +151,7 @@ Keep_HashDrop(rec) ==
     /\ Budget /\ rate \notin {"unset", "1"} /\ rec.status # "error"
     /\ Consult(rec, "drop")
     /\ Observe(rec, FALSE)
-    /\ UNCHANGED rate
+    /\ UNCHANGED rate /\ Push(rec)
     /\ Record([a |-> "Keep", args |-> Args(rec, "drop"),
                exp |-> [kept |-> FALSE, untouched |-> TRUE, hkept |-> FALSE]])
 
@@ -135,7 +160,7 @@ Keep_HashKeep(rec) ==
     /\ Budget /\ rate \notin {"unset", "1"} /\ rec.status # "error"
     /\ Consult(rec, "keep")
     /\ Observe(rec, TRUE)
-    /\ UNCHANGED rate
+    /\ UNCHANGED rate /\ Push(rec)
     /\ Record([a |-> "Keep", args |-> Args(rec, "keep"),
                exp |-> [kept |-> TRUE, stamp |-> rate, hkept |-> TRUE, hstamp |-> rate]])
 
@@ -143,6 +168,7 @@ Init ==
     /\ rate = "unset"
     /\ fate = [k \in Keys |-> "unset"]
     /\ outcomes = [k \in Keys |-> {}]
+    /\ recent = <<>>
     /\ hist = << [a |-> "Init", args |-> [x |-> 0], exp |-> [ok |-> TRUE]] >>
 
 Next ==
@@ -162,6 +188,7 @@ TypeOK ==
     /\ rate \in GoodRates \cup {"unset"}
     /\ fate \in [Keys -> {"unset", "keep", "drop"}]
     /\ outcomes \in [Keys -> SUBSET BOOLEAN]
+    /\ Len(recent) <= Window
 
 \* an error record is always kept, through the sampler and through the hook
 ErrorsAlwaysKept ==
@@ -170,6 +197,17 @@ ErrorsAlwaysKept ==
 \* records sharing a stream id -- or, absent one, a request id -- are all kept or all
 \* dropped: no key has ever shown two different decisions
 AllOrNothing == \A k \in Keys : Cardinality(outcomes[k]) <= 1
+
+\* the decision is a function of the id: the fate of a key, once the hash has been
+\* consulted, never changes, and every non-error record of that key is decided by it
+\* -- whatever records (of this or other ids, errors or not) came before
+FateFixed == [][ \A k \in Keys : fate[k] # "unset" => fate'[k] = fate[k] ]_vars
+DecidedByFate ==
+    [][ (IsKeep /\ Last.args.status # "error" /\ Sampling /\ Last.args.key \in Keys) =>
+            (Last.exp.kept <=> fate'[Last.args.key] = "keep") ]_vars
+\* an error record leaves no trace: it changes neither a fate nor an observed decision
+ErrorsLeaveNoTrace ==
+    [][ (IsKeep /\ Last.args.status = "error") => (fate' = fate /\ outcomes' = outcomes) ]_vars
 
 \* every kept non-error record carries the rate (when a sampler is active at all)
 KeptCarryRate ==
@@ -187,5 +225,5 @@ RateZeroKeepsOnlyErrors ==
     [][ (IsKeep /\ rate = "0") => (Last.exp.kept <=> Last.args.status = "error") ]_vars
 BadRatesRejected == rate \notin BadRates
 
-View == <<rate, fate, outcomes>>
+View == <<rate, fate, outcomes, recent>>
 =============================================================================
